@@ -110,3 +110,40 @@ Definition table_consts_exact (t : mtable) : bool := forallb (fun km => consts_e
 
 (* every entry finite *)
 Definition all_fin (x : list float) : Prop := Forall (fun a => ffin a = true) x.
+
+(* ---- metrics that never reach the decorator: there [metric_rnd_shift eps rnd = metric_rnd rnd] for every [eps] ---- *)
+Fixpoint callsS (s : sexpr) : list string :=
+  match s with
+  | SSum v | SAmax v => callsV v
+  | SCountNe u v => callsV u ++ callsV v
+  | SLen | SConstQ _ | SConstName _ | SParam _ => []
+  | SBin _ a b => callsS a ++ callsS b
+  | SUn _ a => callsS a
+  | SPowC a _ => callsS a
+  | SCall f u v => f :: callsV u ++ callsV v
+  end
+with callsV (v : vexpr) : list string :=
+  match v with
+  | VX | VY => []
+  | VConstS s => callsS s
+  | VBin _ a b => callsV a ++ callsV b
+  | VUn _ a => callsV a
+  | VPowC a _ => callsV a
+  | VSel _ l r a b => callsV l ++ callsV r ++ callsV a ++ callsV b
+  end.
+
+(* the function named [f] is undecorated, and so is everything it calls (to depth [fuel]) *)
+Fixpoint plain_fuel (t : mtable) (fuel : nat) (f : string) : bool :=
+  match fuel with
+  | O => true
+  | S n => match lookup_ir f t with
+           | Some m => (negb (m_avoid_zero m) && forallb (plain_fuel t n) (callsS (m_body m)))%bool
+           | None => true
+           end
+  end.
+
+Definition plain_metric (m : metric_ir) : bool :=
+  (negb (m_avoid_zero m) && forallb (plain_fuel all_metrics_ir call_depth) (callsS (m_body m)))%bool.
+
+Definition plain_names : list string :=
+  map fst (filter (fun km => plain_metric (snd km)) all_metrics_ir).
